@@ -177,6 +177,11 @@ CleanupOK(G, R) ==
     /\ Chk("HelpersOnlyLoseRefs",
            \A e \in Elems(R) : e[2] \in HelperKinds =>
               \A p \in RefsOf(R, e[2], e[3]) : p \in RefsOf(G, e[2], e[3]) \/ IsNeutral(RefT(e, p)))
+    \* cleanup removes elements, and references that dangle: a helper that stays keeps every reference to an element that stays
+    /\ Chk("HelpersKeepResolvingRefs",
+           \A e \in Elems(R) : e[2] \in HelperKinds =>
+              \A p \in RefsOf(G, e[2], e[3]) :
+                 p \in RefsOf(R, e[2], e[3]) \/ ~(\E t \in Elems(R) : SiteTarget[RefT(e, p)[1]] = t[1] /\ RefT(e, p)[4] = t[3]))
     /\ Chk("NoRemovedIsReferenced",
            \A x \in Removed : \A r \in Refs(R) : ~(SiteTarget[r[1]] = x[1] /\ r[4] = x[3]))
     /\ Chk("ResolvedStaysResolved", AllResolve(G) => AllResolve(R))
